@@ -1144,6 +1144,52 @@ def check_option_arms(chk):
     chk.require(n >= 6, 'only %d statements in the option switch' % n)
 
 
+def check_option_string(chk, rule='R09.12'):
+    """the getopt option string and the option switch of main agree: an option whose arm reads optarg is declared with ':' (it takes an
+    argument) and one whose arm does not read optarg is declared without - otherwise `-r ref.wasm in.wasm out.c` is parsed with
+    ref.wasm as the first operand: the module and output paths shift by one, and the translator writes to a file the user named
+    as input"""
+    mtu = astdb.dump_ast(astdb.src('w2c2/main.c'))
+    mainf = mtu.functions.get('main')
+    chk.require(mainf is not None, 'anchor main not found')
+    body = astdb.fn_body(mainf)
+    gcalls = [c for c in walk(body) if c.get('kind') == 'CallExpr' and astdb.callee_name(c) == 'getopt']
+    chk.require(len(gcalls) == 1, 'main() calls getopt %d times' % len(gcalls))
+    ostr = None
+    a2 = strip(astdb.call_args(gcalls[0])[2], casts=True)
+    lit = astdb.string_value(a2)
+    if lit is None:
+        nm = astdb.ref_name(a2)
+        for n_ in walk(mtu.root):
+            if n_.get('kind') == 'VarDecl' and n_.get('name') == nm:
+                for s_ in walk(n_):
+                    if s_.get('kind') == 'StringLiteral':
+                        lit = astdb.c_unescape(s_['value'])
+    chk.require(isinstance(lit, str) and lit, 'option string of the getopt call not found')
+    ostr = lit.lstrip('+-:')
+    takes = {c: (i_ + 1 < len(ostr) and ostr[i_ + 1] == ':') for i_, c in enumerate(ostr) if c != ':'}
+    from . import c20
+    sws = [n_ for n_ in walk(body) if n_.get('kind') == 'SwitchStmt' and any(c.get('kind') == 'CaseStmt' for c in walk(n_))]
+    chk.require(len(sws) >= 1, 'main has no option switch')
+    uses = {}
+    for labels, st in c20.switch_arm_runs(sws[0], mtu):
+        u = any(x.get('kind') == 'DeclRefExpr' and (x.get('referencedDecl') or {}).get('name') == 'optarg' for x in walk(st))
+        for v in labels:
+            if isinstance(v, int) and 32 < v < 127 and chr(v) not in '?:':
+                uses[chr(v)] = uses.get(chr(v), False) or u
+    n = 0
+    for c, u in sorted(uses.items()):
+        n += 1
+        ok = c in takes and takes[c] == u
+        chk.expect(ok, rule, 'option-string:-%s' % c,
+                   'option -%s: its arm in main %s optarg, the option string %r declares it %s - %s' % (
+                       c, 'reads' if u else 'does not read', lit, 'not at all' if c not in takes else 'with an argument' if takes.get(c) else
+                       'without an argument', 'the word after it is taken as the first operand, so input module and output path shift by one '
+                       '(the translator then writes to the path the user gave as input)' if u else 'it swallows the following word'),
+                   'main:option-string')
+    chk.require(n >= 6, 'only %d option letters found in the option switch' % n)
+
+
 def check_worker_resources(chk, tu):
     """the workers run the same recursive writers as the sequential path, on modules of any nesting depth: they are created with
     default thread attributes (no reduced stack), so that what translates with -f 0 also translates when a worker writes it"""
@@ -1243,6 +1289,8 @@ def run(chk):
     check_bundled_getopt(chk, chk.tier)
     check_option_arms(chk)
     chk.floor('R09.11', 8)
+    check_option_string(chk, 'R09.12')
+    chk.floor('R09.12', 6)
     chk.floor('R09.9', 1)
     c10.check_name_dedup(chk, chk.tier, rule='R09.8')
     check_whole_outputs(chk, chk.tier)
